@@ -167,6 +167,15 @@ Definition std_step (s os : list byte) (x : op) : option (list byte * list byte 
                       | FLO => std_last_of s nd false pos
                       | FLNO => std_last_of s nd true pos
                       end))
+  | OIt rev pos k v =>
+      (* offset of the iterator from begin() / rbegin(); the end position is the length *)
+      let off := if ln <=? pos then ln else if rev then ln - 1 - pos else pos in
+      let dom := match k with
+                 | KInc => off <? ln | KDec => 0 <? off | KAdd => v <=? ln - off | KSub => v <=? off
+                 end in
+      let noff := match k with KInc => off + 1 | KDec => off - 1 | KAdd => off + v | KSub => off - v end in
+      obs dom (if noff =? ln then RItD NPOS None
+               else let i := if rev then ln - 1 - noff else noff in RItD i (Some (nthN i s)))
   end.
 
 (** the content the object shows through str() / c_str() / length() *)
